@@ -2,6 +2,8 @@
 
 P1  fields._point_vector.point_source: cell search + product of 1-D hat weights, all other cells zero   (c0910)
 P2  fields.get_receiver: response = sum_d rotation_d * interpolate(field_d) with the same rotation() as the point source (cx)
+    several receivers in one call (arrays of coordinates, value of the generic receiver): each response is the sum of ITS OWN rotation
+    factors times the interpolated components; a direction is left out only if that receiver's own factor is negligible (cx)
 P3  NaN policy: masked iff outside [nodes[1], nodes[-2]] in some axis (cx)
 P4  fields._edge_curl_factor: volume-weighted discrete Faraday law with the C02 curl stencil   (c0910)
     fields.get_magnetic_field: argument roles, zeta = V/(mu_r s mu0), writes nothing of its inputs (cx)
@@ -21,6 +23,8 @@ PROP = 'C09'
 def replay(d):
     from . import c0910_concrete
     r = ob.guarded(c0910_concrete.check_point_vector, seeds=(0,))
+    if not r['reproduced']:
+        r = ob.guarded(c0910_concrete.check_receiver_groups, seeds=(0,))
     if not r['reproduced']:
         r = ob.guarded(c0910_concrete.check_magnetic, seeds=(0,))
     return r
@@ -217,7 +221,36 @@ def task_point_vector():
     return col.pack()
 
 
+def nan_policy(r):
+    """the only masked store of NaN is at  x < nodes_x[1] | x > nodes_x[-2] | ... (y, z alike), x, y, z the columns of the positions"""
+    f = r.state['f']
+    g = f.fields['grid']
+    muts = [e for e in r.mutations() if e['how'] == 'setitem' and isinstance(e.get('key'), cx.NDArr) and e['key'].pred is not None]
+    if len(muts) != 1:
+        return False
+    v = muts[0].get('value')
+    if not (isinstance(v, float) and v != v):
+        return False
+
+    def flat(p):
+        return flat(p[1]) + flat(p[2]) if p[0] == 'or' else [p]
+    atoms = flat(muts[0]['key'].pred)
+    want = set()
+    for k, d in enumerate('xyz'):
+        want.add(('Lt', (g.fields['nodes_' + d].store.uid, 1), k))
+        want.add(('Gt', (g.fields['nodes_' + d].store.uid, -2), k))
+    got = set()
+    for a in atoms:
+        if a[0] != 'cmpelem':
+            return False
+        view = a[4]
+        col_ = [k for k in range(3) if f', {k})' in view or f', {k}),' in view]
+        got.add((a[1], a[2], col_[0] if col_ else None))
+    return got == want
+
+
 def task_get_receiver():
+    from .c0910 import bind_call, NoBinding
     col = ob.Collector(PROP, 'fields.get_receiver')
     col.default_replay = replay
     col.function('fields.get_receiver')
@@ -232,7 +265,7 @@ def task_get_receiver():
                 return (None, xi, cx.Opaque('shape'))
 
             def rotation(it, args, kw, node):
-                log.append(('rotation', args))
+                log.append(('rotation', args, kw))
                 return cx.Vec([z3.Real('rot_x'), z3.Real('rot_y'), z3.Real('rot_z')])
 
             def interp(it, args, kw, node):
@@ -240,6 +273,8 @@ def task_get_receiver():
                 return cx.NDArr(cx.Store(('interp', len(log))))
             ctx.summaries.update({'maps._points_from_grids': pfg, 'electrodes.rotation': rotation, 'maps.interpolate': interp,
                                   'utils.EMArray': lambda it, a, k, n: a[0]})
+            # (numpy scalars: the max / min of a single number is that number)
+            ctx.opts.setdefault('prelude', {}).update({'number.max': lambda it, f, a, k, n: f.bound, 'number.min': lambda it, f, a, k, n: f.bound})
             f = mk_field('field')
             coords = tuple(z3.Reals('rx ry rz az el'))
             return [f, coords], dict(method=method), dict(f=f, coords=coords, log=log, method=method)
@@ -248,17 +283,28 @@ def task_get_receiver():
 
     def structure(r):
         log, f, coords = r.state['log'], r.state['f'], r.state['coords']
+        # (effective parameters by the callee's signature in the current source: positional and keyword calls are the same call)
         rot = [x for x in log if x[0] == 'rotation']
-        if len(rot) != 1 or not (rot[0][1][0] is coords[3] and rot[0][1][1] is coords[4]):
+        if len(rot) != 1:
+            return False
+        try:
+            b = bind_call('electrodes.rotation', rot[0][1], rot[0][2])
+        except NoBinding:
+            return False
+        if not (b['azimuth'] is coords[3] and b['elevation'] is coords[4] and b.get('deg') is True):
             return False
         used_ = {}
         for x in log:
             if x[0] == 'interpolate':
-                a, kw = x[1], x[2]
-                comp = [c for c in 'xyz' if a[1] is f.fields['f' + c]]
-                if len(comp) != 1 or a[0] is not f.fields['grid'] or kw.get('method') != r.state['method'] or kw.get('extrapolate') is not False:
+                try:
+                    b = bind_call('maps.interpolate', x[1], x[2])
+                except NoBinding:
                     return False
-                if r.state['method'] == 'linear' and not (isinstance(kw.get('fill_value'), float) and kw['fill_value'] != kw['fill_value']):
+                comp = [c for c in 'xyz' if b['values'] is f.fields['f' + c]]
+                if len(comp) != 1 or b['grid'] is not f.fields['grid'] or b['method'] != r.state['method'] or b['extrapolate'] is not False:
+                    return False
+                fill = b.get('**', {}).get('fill_value')
+                if r.state['method'] == 'linear' and not (isinstance(fill, float) and fill != fill):
                     return False
                 used_[comp[0]] = True
         # a component is skipped only if its factor is (numerically) zero: path condition has |factor| <= 1e-10
@@ -270,32 +316,232 @@ def task_get_receiver():
         return z3.And(*gs)
     clause(col, 'response_is_sum_of_rotation_factor_times_interpolated_component__same_rotation_as_the_point_source', res, structure, sample=True)
 
-    def nan_policy(r):
-        f = r.state['f']
-        g = f.fields['grid']
-        muts = [e for e in r.mutations() if e['how'] == 'setitem' and isinstance(e.get('key'), cx.NDArr) and e['key'].pred is not None]
-        if len(muts) != 1:
-            return False
-        v = muts[0].get('value')
-        if not (isinstance(v, float) and v != v):
-            return False
-
-        def flat(p):
-            return flat(p[1]) + flat(p[2]) if p[0] == 'or' else [p]
-        atoms = flat(muts[0]['key'].pred)
-        want = set()
-        for k, d in enumerate('xyz'):
-            want.add(('Lt', (g.fields['nodes_' + d].store.uid, 1), k))
-            want.add(('Gt', (g.fields['nodes_' + d].store.uid, -2), k))
-        got = set()
-        for a in atoms:
-            if a[0] != 'cmpelem':
-                return False
-            view = a[4]
-            col_ = [k for k in range(3) if f', {k})' in view or f', {k}),' in view]
-            got.add((a[1], a[2], col_[0] if col_ else None))
-        return got == want
     clause(col, 'NaN_exactly_where_a_coordinate_is_below_nodes_1_or_above_nodes_minus_2', res, nan_policy)
+    return col.pack()
+
+
+# ------------------------------------------------------------------ get_receiver, several receivers in one call
+class RotRows(cx.Vec):
+    """electrodes.rotation for ARRAYS of angles: a (3, nrec) array whose row d holds the factor of direction d of every receiver of the
+    call.  Each row is an abstract array whose point-wise value is the factor of the GENERIC receiver (an arbitrary, fixed one)."""
+
+
+NEGLIGIBLE = z3.RealVal('1e-10')       # the bound below which the existing single-receiver clause already accepts a factor as "numerically zero"
+
+
+def many_receivers_prelude(ctx, state):
+    """dependency contracts used only by the many-receivers scenario (each is a fact about numpy on arrays that share one index, the receiver)"""
+    import numpy as np
+    from pyvc import prelude
+    base = lambda name: prelude.TABLE[name]
+
+    def is_rows(v):
+        return isinstance(v, cx.Vec) and len(v) == 3 and all(isinstance(x, cx.NDArr) for x in v)
+
+    def absf(it, f, args, kw, node):
+        v = f.bound if f.bound is not None else args[0]
+        if isinstance(v, cx.Vec):           # element-wise on a small array / row by row
+            return type(v)(absf(it, cx.LibFn(f.name), [x], {}, node) for x in v)
+        return base(f.name)(it, f, args, kw, node)
+
+    def anyall(it, f, args, kw, node):
+        v = f.bound if f.bound is not None else args[0]
+        rest = list(args) if f.bound is not None else list(args[1:])
+        axis = kw.get('axis', rest[0] if rest else None)
+        is_any = f.name.endswith('any')
+        if is_rows(v):
+            per_row = [anyall(it, cx.LibFn('np.any' if is_any else 'np.all'), [x], {}, node) for x in v]
+            if axis in (1, -1):
+                return cx.Vec(per_row)
+            if axis is None:
+                per_row = [cx.R(x) for x in per_row]
+                return z3.Or(*per_row) if is_any else z3.And(*per_row)
+            raise cx.Unsupported('np.any / np.all of the rotation factors along the direction axis')
+        if axis is not None and isinstance(v, cx.NDArr):
+            raise cx.Unsupported('np.any / np.all with axis= on an abstract array')
+        r = base(f.name)(it, f, args, kw, node)
+        if isinstance(v, cx.NDArr) and v.store.val is not None and z3.is_expr(v.store.val) and z3.is_bool(v.store.val) and z3.is_expr(r) and z3.is_bool(r):
+            # the generic element is one of the elements:  b[j] => any(b),  all(b) => b[j]
+            it.ctx.assume(z3.Implies(v.store.val, r) if is_any else z3.Implies(r, v.store.val))
+        return r
+
+    def maxmin(it, f, args, kw, node):
+        v = f.bound if f.bound is not None else args[0]
+        if isinstance(v, cx.NDArr) and not kw and len(args) == (0 if f.bound is not None else 1) and v.store.val is not None \
+                and z3.is_expr(v.store.val) and z3.is_real(v.store.val):
+            m = it.ctx.fresh_real('extremum_over_receivers')
+            state['modelled'].add(str(m))
+            # the generic element is one of the elements:  x[j] <= max(x),  min(x) <= x[j]
+            it.ctx.assume(v.store.val <= m if f.name.endswith('max') else m <= v.store.val)
+            return m
+        return base(f.name)(it, f, args, kw, node) if f.name in prelude.TABLE else cx.Opaque(f.name + '()')
+
+    def reshape(it, f, args, kw, node):
+        v = f.bound
+        shp = args[0] if len(args) == 1 and isinstance(args[0], (tuple, list)) else tuple(args)
+        if is_rows(v) and tuple(shp) in ((3, -1),) and not kw:
+            return v                      # (3, nrec) -> (3, nrec)
+        raise cx.Unsupported('reshape of the rotation factors to something else than (3, -1)')
+
+    def sumf(it, f, args, kw, node):
+        v = f.bound if f.bound is not None else args[0]
+        rest = list(args) if f.bound is not None else list(args[1:])
+        axis = kw.get('axis', rest[0] if rest else None)
+        if is_rows(v):
+            if axis in (1, -1):
+                # sum over the receivers of the call: a number about which nothing is known from the generic receiver alone
+                out = cx.Vec()
+                for d in 'xyz':
+                    s_ = it.ctx.fresh_real('sum_over_receivers_of_factor_' + d)
+                    state['modelled'].add(str(s_))
+                    out.append(s_)
+                return out
+            if axis == 0 and all(x.store.val is not None for x in v):
+                return cx.NDArr(cx.Store('sum-of-rows', v[0].store.val + v[1].store.val + v[2].store.val))
+            raise cx.Unsupported('sum of the rotation factors without axis')
+        return base(f.name)(it, f, args, kw, node) if f.name in prelude.TABLE else cx.Opaque(f.name + '()')
+
+    def hasattr_(it, f, args, kw, node):
+        o, name = args
+        if isinstance(o, cx.NDArr) and isinstance(name, str):
+            return hasattr(np.empty(0), name)        # attributes of numpy.ndarray
+        return base('builtins.hasattr')(it, f, args, kw, node)
+    tab = {'builtins.abs': absf, 'np.abs': absf, 'np.absolute': absf, 'np.any': anyall, 'np.all': anyall, 'ndarray.any': anyall, 'ndarray.all': anyall,
+           'ndarray.max': maxmin, 'ndarray.min': maxmin, 'np.max': maxmin, 'np.min': maxmin, 'np.amax': maxmin, 'np.amin': maxmin,
+           'list.reshape': reshape, 'list.sum': sumf, 'np.sum': sumf, 'builtins.hasattr': hasattr_}
+    ctx.opts.setdefault('prelude', {}).update(tab)
+
+
+def task_get_receiver_many():
+    """fields.get_receiver called with SEVERAL receivers (tuple of coordinate arrays, the way a Simulation calls it).  The statement is about
+    each point receiver: its response is the linear functional  sum_d rotation_d(azimuth_j, elevation_j) * interpolate(field_d)(position_j)
+    of ITS OWN position and orientation -- whatever other receivers are sampled in the same call.  A direction may be left out of the sum for
+    receiver j only if receiver j's own factor for it is negligible (|factor| <= 1e-10, the bound the single-receiver clause uses).
+    Arrays are abstract with the value of the generic receiver j; the result is compared where it is not masked by the NaN policy."""
+    from .cxutil import UNRECOGNISED, canary, fresh_consts
+    from .c0910 import bind_call, NoBinding
+    from pyvc import prelude
+    col = ob.Collector(PROP, 'fields.get_receiver/many_receivers')
+    col.default_replay = lambda d: ob.guarded(__import__('contracts.c0910_concrete', fromlist=['x']).check_receiver_groups, seeds=(0,))
+    col.function('fields.get_receiver')
+    col.trust('numpy on arrays indexed by the receiver (many-receivers scenario of get_receiver): element-wise arithmetic / abs / comparisons act on the generic '
+              'element; b[j] => np.any(b), np.all(b) => b[j]; x[j] <= x.max(), x.min() <= x[j]; a[mask] = v leaves the elements outside the mask unchanged; '
+              'a sum over the receivers is an unknown number; an ndarray has no attribute "coordinates"; '
+              'utils.EMArray(x) (empymod) is an ndarray subclass holding the elements of x')
+    ROT = {d: z3.Real('rot_' + d) for d in 'xyz'}
+    INT = {d: z3.Real('interpolated_f' + d) for d in 'xyz'}
+    res = []
+    orig_setitem = cx.Interp.setitem
+
+    def setitem(self, o, k, v, node=None):
+        # a[mask] = NaN: the elements outside the mask keep their value -- the point-wise value of `a` from here on is the value of a generic
+        # receiver that is NOT masked (what happens to the masked ones is the NaN-policy clause)
+        if isinstance(o, cx.NDArr) and isinstance(k, cx.NDArr) and k.dtype == 'bool' and isinstance(v, float) and v != v and o.view == 'whole':
+            prev = o.store.val
+            orig_setitem(self, o, k, v, node)
+            o.store.val = prev
+            self.ctx.event('nan_mask', store=o.store, mask=k)
+            return
+        return orig_setitem(self, o, k, v, node)
+    for method in ('linear', 'cubic'):
+        def mk(ctx, method=method):
+            log = []
+            f = mk_field('field')
+            coords = tuple(cx.NDArr(cx.Store('receivers.' + n, z3.Real(n))) for n in ('rx', 'ry', 'rz', 'az', 'el'))
+            state = dict(f=f, coords=coords, log=log, method=method, modelled=set(), xi=[])
+            unknown = lambda tag: z3.Real(f'unknown_{tag}_{len(log)}')
+
+            def pfg(it, args, kw, node):
+                xi = cx.NDArr(cx.Store('xi'))
+                try:
+                    b = bind_call('maps._points_from_grids', args, kw)
+                    pos = b['xi']
+                    if b['grid'] is f.fields['grid'] and isinstance(pos, (tuple, list)) and len(pos) == 3 and all(p is c for p, c in zip(pos, coords[:3])):
+                        state['xi'].append(xi)       # the rows of xi are the positions of the receivers, in order
+                except NoBinding:
+                    pass
+                log.append(('points', args))
+                return (None, xi, cx.Opaque('shape'))
+
+            def rotation(it, args, kw, node):
+                log.append(('rotation', args, kw))
+                try:
+                    b = bind_call('electrodes.rotation', args, kw)
+                    ok = b['azimuth'] is coords[3] and b['elevation'] is coords[4] and b.get('deg') is True
+                except NoBinding:
+                    ok = False
+                # the factors of the generic receiver's own angles -- of unknown angles otherwise
+                return RotRows(cx.NDArr(cx.Store('rotation.' + d, ROT[d] if ok else unknown('rotation_' + d))) for d in 'xyz')
+
+            def interp(it, args, kw, node):
+                log.append(('interpolate', args, kw))
+                val = None
+                try:
+                    b = bind_call('maps.interpolate', args, kw)
+                    comp = [c for c in 'xyz' if b['values'] is f.fields['f' + c]]
+                    if len(comp) == 1 and b['grid'] is f.fields['grid'] and any(b['xi'] is x for x in state['xi']) and b['method'] == method \
+                            and b['extrapolate'] is False and b['log'] is False:
+                        val = INT[comp[0]]
+                except NoBinding:
+                    pass
+                return cx.NDArr(cx.Store(('interp', len(log)), val if val is not None else unknown('interpolation')))
+            ctx.summaries.update({'maps._points_from_grids': pfg, 'electrodes.rotation': rotation, 'maps.interpolate': interp,
+                                  'utils.EMArray': lambda it, a, k, n: a[0]})
+            many_receivers_prelude(ctx, state)
+            return [f, coords], dict(method=method), state
+        cx.Interp.setitem = setitem
+        try:
+            res += cx.run_function('fields.get_receiver', mk, summaries={}, opts={})
+        finally:
+            cx.Interp.setitem = orig_setitem
+    clause(col, 'returns_normally', res, lambda r: r.outcome == 'return')
+    ABS = prelude.PW['abs']
+    absr = {d: z3.If(ROT[d] >= 0, ROT[d], -ROT[d]) for d in 'xyz'}
+    hyps = [ABS(ROT[d]) == absr[d] for d in 'xyz']          # rotation factors are real numbers: abs is the absolute value
+
+    def value(r):
+        """point-wise value of the returned responses, or why the executor cannot give one"""
+        if r.outcome != 'return':
+            return None
+        arr = r.value
+        if isinstance(arr, cx.Opaque) and arr.tag == 'emg3d.utils.EMArray()':
+            # utils.EMArray is empymod's ndarray subclass: EMArray(x) holds the elements of x (dependency contract)
+            made = [e for e in r.events if e['kind'] == 'call' and e['name'] == 'opaque:emg3d.utils.EMArray']
+            if made and len(made[-1]['args']) == 1 and not made[-1]['kwargs']:
+                arr = made[-1]['args'][0]
+        if not isinstance(arr, cx.NDArr) or arr.store.val is None or not z3.is_real(cx.R(arr.store.val)):
+            return UNRECOGNISED('the returned responses are not built by element-wise arithmetic the executor can follow')
+        pc = z3.And(*r.pc) if r.pc else z3.BoolVal(True)
+        stray = [c for c in fresh_consts(z3.And(pc, arr.store.val == 0)) if str(c) not in r.state['modelled']]
+        if stray:
+            return UNRECOGNISED(f'a branch or value depends on something outside the model ({stray[0]})')
+        if len([e for e in r.events if e['kind'] == 'nan_mask' and e['store'] is arr.store]) > 1:
+            return UNRECOGNISED('more than one masked store into the responses')
+        return cx.R(arr.store.val)
+
+    def own(left_out_ok):
+        def post(r):
+            v = value(r)
+            if v is None or not z3.is_expr(v):
+                return v
+            alts = []
+            for S in itertools.product((False, True), repeat=3):
+                out = [d for d, s_ in zip('xyz', S) if s_]
+                if not all(left_out_ok(d) is not None for d in out):
+                    continue
+                alts.append(z3.And(*[left_out_ok(d) for d in out], v == sum([ROT[d] * INT[d] for d in 'xyz' if d not in out], z3.RealVal(0))))
+            return z3.Or(*alts)
+        return post
+    import itertools
+    for k, r in enumerate(res):
+        col.satisfiable(f'hyps-sat/path{k}', hyps + list(r.pc))
+    main = clause(col, 'response_of_each_receiver_is_the_sum_of_ITS_OWN_rotation_factors_times_the_interpolated_components__a_direction_is_left_out_only_if_its_own_factor_is_negligible',
+                  res, own(lambda d: absr[d] <= NEGLIGIBLE), hyps, sample=True)
+    clause(col, 'NaN_exactly_where_a_coordinate_is_below_nodes_1_or_above_nodes_minus_2', res, nan_policy)
+    if main.get('status') != 'unknown':
+        # (only when the clause could be stated at all: on code of an unrecognised shape there is nothing a canary could be compared with)
+        canary(col, 'canary/no_direction_is_ever_left_out', res, own(lambda d: None), hyps)
+        canary(col, 'canary/a_direction_is_left_out_only_if_its_factor_is_exactly_zero', res, own(lambda d: ROT[d] == 0), hyps)
     return col.pack()
 
 
@@ -308,6 +554,10 @@ def task_concrete():
     col.concrete('receiver_sampling_equals_inner_product_with_point_vector__NaN_policy', r['reproduced'] is False, r,
                  bounded='stretched 5x6x4 grid; 25 random + axis-aligned positions/angles per seed; complex and real fields; linear interpolation (stands in for SciPy RegularGridInterpolator contract)',
                  cases=r.get('cases', 0))
+    r = ob.guarded(c0910_concrete.check_receiver_groups, seeds=(seed,))
+    col.concrete('receivers_sampled_in_one_call_each_equal_the_inner_product_with_their_own_point_vector', r['reproduced'] is False, r,
+                 bounded='stretched 5x6x4 grid; 8 groups of 2..12 receivers (equal, Cartesian, cancelling direction cosines, opposite pairs, scans, random), '
+                         'as tuple of coordinate arrays and as list of Rx instances; complex and real fields; linear interpolation', cases=r.get('cases', 0))
     r = ob.guarded(c0910_concrete.check_magnetic, seeds=(seed,))
     col.concrete('magnetic_field_is_discrete_Faraday__grid_not_modified__repeatable', r['reproduced'] is False, r,
                  bounded='sequence of 6 get_magnetic_field calls on one grid with and without mu_r', cases=r.get('cases', 0))
@@ -317,14 +567,17 @@ def task_concrete():
 def tasks(tier):
     return [('contracts.c0910', 'task_point_source', dict(prop='C09')), ('contracts.c0910', 'task_edge_curl_factor', {}),
             ('contracts.c0910', 'task_rotation', dict(prop='C09')),
-            ('contracts.c09', 'task_get_magnetic_field', {}), ('contracts.c09', 'task_get_receiver', {}), ('contracts.c09', 'task_point_vector', {}),
+            ('contracts.c09', 'task_get_magnetic_field', {}), ('contracts.c09', 'task_get_receiver', {}), ('contracts.c09', 'task_get_receiver_many', {}),
+            ('contracts.c09', 'task_point_vector', {}),
             ('contracts.c09', 'task_concrete', {})]
 
 
 LEVEL = ('Proof over the real source: point_source computes the product of 1-D hat weights at the unique bracketing cell (symbolic grid, position), '
          '_edge_curl_factor is the volume-weighted discrete Faraday law with the C02 curl stencil, get_receiver applies the same rotation factors to the '
-         'per-component interpolants and masks exactly the outermost cells, get_magnetic_field wires them and writes nothing of its inputs.')
+         'per-component interpolants and masks exactly the outermost cells -- for one receiver and, with arrays of coordinates, for every receiver of a call by its own factors -- , get_magnetic_field wires them and writes nothing of its inputs.')
 ASSUMPTIONS = ['RGI: maps.interpolate(method="linear") (SciPy RegularGridInterpolator) returns the sum of hat weights times values and NaN outside (bounded concrete check only)',
                'np.where(c)[0][0] is the first index at which c holds (dependency contract)',
                'lemma P5 (reciprocity from symmetry of A and r = s^T) is a paper step over the contracts of C02 and C09',
-               'magnetic point source (_point_vector_magnetic, discretize) and cubic interpolation are not covered']
+               'magnetic point source (_point_vector_magnetic, discretize) and cubic interpolation are not covered',
+               'several receivers in one call: arrays are abstracted by the value of a generic receiver (views that permute receivers are not distinguished); '
+               'receivers given as a list of Rx* instances are covered by the bounded concrete check only']
